@@ -130,6 +130,8 @@ struct Nb {
     resp: Box<BlkResp>,
     buf: Box<[u8]>,
     status: Option<u8>,
+    /// For a read the device served successfully: the bytes it supplied.
+    data: Option<Vec<u8>>,
 }
 
 pub const VARIANTS: [(u64, usize); 5] = [(0, 1), (1, 2), (7, 1), (1 << 32, 1), (u64::MAX, 1)];
@@ -325,6 +327,7 @@ impl TransportVisitor for V {
                         resp: presp,
                         buf: if write { (0..512 * n).map(|i| (i as u8).wrapping_mul(5).wrapping_add(wseq)).collect::<Vec<u8>>().into_boxed_slice() } else { vec![0x22u8; 512 * n].into_boxed_slice() },
                         status: None,
+                        data: None,
                     };
                     // SAFETY: the buffers live in `nbs` until the request has been completed.
                     let r = unsafe {
@@ -365,6 +368,9 @@ impl TransportVisitor for V {
                             co.borrow_mut().complete_held(0, arg, &data, len);
                             if let Some(n) = nbs.iter_mut().find(|n| n.token == chain.head) {
                                 n.status = Some(st);
+                                if st == 0 && req.typ == 0 {
+                                    n.data = Some(data[..data.len() - 1].to_vec());
+                                }
                             }
                             tlog!("step {}: device completes token {} with status {:#x}", step, chain.head, st);
                             tag("nb-device-complete");
@@ -406,6 +412,11 @@ impl TransportVisitor for V {
                         let _ = n;
                         if nb.buf.iter().all(|b| *b == 0x22) {
                             viol("completion-data", format!("read completion of token {} left the buffer untouched", tok));
+                        }
+                        if let Some(d) = &nb.data {
+                            if **d != *nb.buf {
+                                viol("completion-data", format!("read completion of token {} (sector {:#x}) returned bytes differing from what the device supplied for that request", tok, nb.sector));
+                            }
                         }
                     }
                     obs(tok as u64);
@@ -458,5 +469,225 @@ pub fn run(tkind: TKind, depth: usize, nb_only: bool) {
     cfg[0..8].copy_from_slice(&0x1_0000_0008u64.to_le_bytes());
     let w = DWorld::new(Kind::Blk, tkind, offered, cfg);
     w.with_transport(V { depth, offered, nb_only });
+    mmio::set_handler(None);
+}
+
+// ------------------------------------------------------------------------------------------------
+// A queue-full of outstanding non-blocking requests, completed in any order, twice.
+
+struct VFull {
+    rounds: usize,
+}
+
+impl TransportVisitor for VFull {
+    type Out = ();
+    fn visit<T: Transport + 'static>(self, t: T, w: &DWorld) {
+        let bd = Rc::new(RefCell::new(BlkDev { disk: Disk::default(), decode_errors: vec![], seen: vec![] }));
+        let co: CoRc = {
+            let bd = bd.clone();
+            CoDevice::new(
+                w.dev.clone(),
+                Box::new(move |_q, chain, readable| {
+                    let mut b = bd.borrow_mut();
+                    match decode(chain, readable) {
+                        Err(e) => {
+                            b.decode_errors.push(e);
+                            Action::Hold
+                        }
+                        Ok(r) => {
+                            b.seen.push(r);
+                            Action::Hold
+                        }
+                    }
+                }),
+            )
+        };
+        cosim::install(&co);
+        let mut blk = match VirtIOBlk::<LabHal, T>::new(t) {
+            Ok(b) => b,
+            Err(e) => {
+                viol("construction", format!("{:?}", e));
+                cosim::uninstall();
+                return;
+            }
+        };
+        let accepted = w.dev.borrow().driver_features;
+        let indirect = accepted & F_INDIRECT != 0;
+        // Queue size 16: three descriptors per request directly, one with an indirect table.
+        let capacity = if indirect { 16 } else { 5 };
+        let mut expected = Disk::default();
+        let mut wseq = 0u8;
+        for round in 0..self.rounds {
+            let mut nbs: Vec<Nb> = vec![];
+            // Fill until the driver refuses.
+            loop {
+                let k = nbs.len();
+                let write = (k + round) % 2 == 1;
+                let sector = 100 * (round as u64 + 1) + k as u64;
+                wseq = wseq.wrapping_add(1);
+                let seen_before = bd.borrow().seen.len();
+                let mut nb = Nb {
+                    token: 0,
+                    write,
+                    sector,
+                    req: Box::new(BlkReq::default()),
+                    resp: Box::new(BlkResp::default()),
+                    buf: if write { (0..512).map(|i| (i as u8).wrapping_mul(5).wrapping_add(wseq)).collect::<Vec<u8>>().into_boxed_slice() } else { vec![0x22u8; 512].into_boxed_slice() },
+                    status: None,
+                    data: None,
+                };
+                let snap_before = hal::with(|h| h.live_share_count());
+                // SAFETY: the buffers live in `nbs` until the request has been completed.
+                let r = unsafe {
+                    if write {
+                        blk.write_blocks_nb(sector as usize, &mut nb.req, &nb.buf, &mut nb.resp)
+                    } else {
+                        blk.read_blocks_nb(sector as usize, &mut nb.req, &mut nb.buf, &mut nb.resp)
+                    }
+                };
+                co.borrow_mut().service(0);
+                let emitted = bd.borrow().seen.len() - seen_before;
+                match r {
+                    Ok(tok) => {
+                        if k >= capacity {
+                            viol("queue-full-not-refused", format!("request #{} was accepted with {} requests outstanding on a 16-descriptor queue ({}): capacity is {}", k + 1, k, if indirect { "indirect" } else { "direct" }, capacity));
+                            break;
+                        }
+                        if emitted != 1 {
+                            viol("request-count", format!("submission #{} emitted {} requests", k + 1, emitted));
+                        } else {
+                            let b = bd.borrow();
+                            let q = b.seen.last().unwrap();
+                            if q.typ != write as u32 || q.sector != sector || q.data_len != 512 || q.head != tok {
+                                viol("request-encoding", format!("submission #{}: device decoded type {} sector {:#x} data {} head {}; caller asked for type {} sector {:#x}, token {}", k + 1, q.typ, q.sector, q.data_len, q.head, write as u32, sector, tok));
+                            }
+                        }
+                        if nbs.iter().any(|o| o.token == tok) {
+                            viol("token-reuse", format!("token {} returned for two outstanding requests", tok));
+                        }
+                        nb.token = tok;
+                        nbs.push(nb);
+                    }
+                    Err(e) => {
+                        if k < capacity {
+                            viol("nb-submit", format!("submission #{} refused with {:?} although only {} of {} possible requests are outstanding", k + 1, e, k, capacity));
+                        } else if e != Error::QueueFull || emitted != 0 || hal::with(|h| h.live_share_count()) != snap_before {
+                            viol("queue-full-refusal", format!("the refused submission returned {:?}, emitted {} requests and left {} extra shares", e, emitted, hal::with(|h| h.live_share_count()) as i64 - snap_before as i64));
+                        }
+                        break;
+                    }
+                }
+                if crate::engine::chooser::has_violation() {
+                    break;
+                }
+            }
+            tag("queue-filled");
+            // Every outstanding chain must still be what was submitted (nothing overwritten).
+            {
+                let mut c = co.borrow_mut();
+                c.service(0);
+                let held: Vec<Chain> = c.held.get(&0).cloned().unwrap_or_default();
+                drop(c);
+                for h in &held {
+                    match h.read_all().map_err(|e| e.to_string()).and_then(|r| decode(h, &r)) {
+                        Err(e) => viol("outstanding-request-corrupted", format!("round {}: outstanding request with head {} no longer decodes after the queue was filled: {}", round, h.head, e)),
+                        Ok(r) => {
+                            if let Some(n) = nbs.iter().find(|n| n.token == h.head) {
+                                if r.sector != n.sector || r.typ != n.write as u32 {
+                                    viol("outstanding-request-corrupted", format!("round {}: outstanding request {} now reads type {} sector {:#x}, submitted as type {} sector {:#x}", round, h.head, r.typ, r.sector, n.write as u32, n.sector));
+                                }
+                            }
+                        }
+                    }
+                }
+                if held.len() != nbs.len() {
+                    viol("outstanding-request-corrupted", format!("round {}: the device holds {} requests, the driver accepted {}", round, held.len(), nbs.len()));
+                }
+            }
+            // The device completes them in any order; the driver consumes in used-ring order.
+            while !nbs.is_empty() && !crate::engine::chooser::has_violation() {
+                let held = co.borrow_mut().held_count(0);
+                if held == 0 {
+                    viol("request-lost", format!("{} requests outstanding but the device holds none", nbs.len()));
+                    break;
+                }
+                let j = deviate(held, "which outstanding request the device completes (default: oldest)");
+                let st = STATUSES[deviate(4, "device status")];
+                let chain = co.borrow().held.get(&0).unwrap()[j].clone();
+                let req = match chain.read_all().map_err(|e| e.to_string()).and_then(|r| decode(&chain, &r)) {
+                    Ok(r) => r,
+                    Err(e) => {
+                        viol("outstanding-request-corrupted", e);
+                        break;
+                    }
+                };
+                let (data, len) = bd.borrow_mut().execute(&req, st);
+                if st == 0 && req.typ == 1 {
+                    for (i, c) in req.write_data.chunks(512).enumerate() {
+                        expected.sectors.insert(req.sector.wrapping_add(i as u64), c.to_vec());
+                    }
+                }
+                co.borrow_mut().complete_held(0, j, &data, len);
+                let Some(tok) = blk.peek_used() else {
+                    viol("peek-used", "peek_used() = None although the device completed a request".into());
+                    break;
+                };
+                if tok != chain.head {
+                    viol("peek-used", format!("peek_used() = {} but the device completed {}", tok, chain.head));
+                    break;
+                }
+                let Some(i) = nbs.iter().position(|n| n.token == tok) else {
+                    viol("peek-used", format!("peek_used() = {} which is not an outstanding token", tok));
+                    break;
+                };
+                let mut nb = nbs.remove(i);
+                // SAFETY: same buffers as passed at submission.
+                let r = unsafe {
+                    if nb.write {
+                        blk.complete_write_blocks(tok, &nb.req, &nb.buf, &mut nb.resp)
+                    } else {
+                        blk.complete_read_blocks(tok, &nb.req, &mut nb.buf, &mut nb.resp)
+                    }
+                };
+                tag("nb-complete");
+                if r != expect_of(st) {
+                    viol("completion-status", format!("completion of token {} returned {:?} but the device reported status {:#x} for that request", tok, r, st));
+                }
+                if !nb.write && st == 0 && *nb.buf != data[..512] {
+                    viol("completion-data", format!("read completion of token {} (sector {:#x}) returned bytes differing from what the device supplied for that request", tok, nb.sector));
+                }
+                if nb.write && req.write_data != *nb.buf {
+                    viol("write-data", format!("the device received other bytes than the caller's for the write of sector {:#x}", nb.sector));
+                }
+                obs((tok as u64) << 8 | st as u64);
+            }
+            for e in bd.borrow_mut().decode_errors.drain(..) {
+                viol("request-malformed", e);
+            }
+            for e in co.borrow_mut().errors.drain(..) {
+                viol("chain-malformed", e);
+            }
+            if bd.borrow().disk.sectors != expected.sectors {
+                viol("disk-contents", "device disk differs from the caller's writes".into());
+            }
+            if crate::engine::chooser::has_violation() {
+                break;
+            }
+        }
+        drop(blk);
+        cosim::uninstall();
+    }
+}
+
+/// Fills the request queue with non-blocking requests until the driver refuses, has the device
+/// complete them in an explored order with explored statuses, and repeats.
+pub fn run_full(tkind: TKind, rounds: usize) {
+    hal::reset();
+    let feats = [F_VERSION_1, F_VERSION_1 | F_INDIRECT, F_VERSION_1 | F_EVENT_IDX, F_VERSION_1 | F_INDIRECT | F_EVENT_IDX];
+    let offered = feats[choose(feats.len(), "offered features")];
+    let mut cfg = Kind::Blk.default_config();
+    cfg[0..8].copy_from_slice(&0x1_0000_0008u64.to_le_bytes());
+    let w = DWorld::new(Kind::Blk, tkind, offered, cfg);
+    w.with_transport(VFull { rounds });
     mmio::set_handler(None);
 }
